@@ -16,6 +16,15 @@ IO = "swcgeom.core.swc_utils.io"
 SCOPE = ["swcgeom.utils.dsu", CHK, BASE, NORM, IO]
 
 
+def _ancestors(repo, node, stop):
+    out = []
+    cur = repo.parent(node)
+    while cur is not None and cur is not stop:
+        out.append(cur)
+        cur = repo.parent(cur)
+    return out
+
+
 def run(ctx, col, tier):
     repo = ctx.repo
     from ..rules import smalllints as _small
@@ -393,18 +402,12 @@ def checkers(ctx, col):
     col.check(bool(ok), R, d.qualname, d.loc(), "cycle <=> some edge joins two nodes that are already connected; roots skipped; edges added afterwards",
               "", "has_cyclic does not follow `skip root; if same set: True; union`", stmt="cyclic")
     d = repo.get_def(f"{CHK}.is_sorted")
-    en = d.nested.get("enter")
-    ok = en is not None
-    if ok:
-        i, p = en.params[:2]
-        ifs = [n for n in own_nodes(en) if isinstance(n, ast.If)]
-        ok = len(ifs) == 1 and norm_src(ifs[0].test) == f"{p} is not None and {i} < {p}" \
-            and [norm_src(s) for s in ifs[0].body] == ["flag = False"] and norm_src(en.node.body[-1]) == f"return {i}"
-    col.check(bool(ok), R, d.qualname, d.loc(), "unsorted <=> some node's id is below its parent's id; each node hands its id to its children",
-              "", "is_sorted's enter callback is not `if parent is not None and idx < parent: flag = False; return idx`", stmt="sorted")
-    tc = [n for n in own_nodes(d) if isinstance(n, ast.Call) and dotted(n.func) == "traverse"]
-    ok = len(tc) == 1 and kwarg(tc[0], "enter") is not None and norm_src(kwarg(tc[0], "enter")) == "enter"
-    col.check(ok, R, d.qualname, d.loc(), "the test is applied top-down over the whole topology", "", "traverse(enter=enter) missing", stmt="sorted-walk")
+    # sorted <=> every row that has a parent has a parent id below its own id (whole-column comparison over the non-root rows)
+    col.text_group(R, d.qualname, d, [
+        ("the id and parent-id columns of the table", ["ids, pids = np.asarray(topology[0]), np.asarray(topology[1])"], "sorted-cols"),
+        ("every row but the roots", ["has_parent = pids != -1"], "sorted-rows"),
+        ("sorted <=> the parent id of each of them is below its own id", ["return bool(np.all(pids[has_parent] < ids[has_parent]))"], "sorted"),
+    ], fixed=("topology",))
     g = repo.get_def(f"{BASE}.get_dsu")
     src = {norm_src(n.targets[0]): [] for n in own_nodes(g) if isinstance(n, ast.Assign)}
     for n in own_nodes(g):
@@ -563,6 +566,25 @@ def anchored(ctx, col):
         ("edges are added after the test", ["dsu.union_sets(node_a, node_b)"], "union"),
         ("no cycle only after every edge was examined", ["return False"], "acyclic"),
     ], fixed=("topology", "DisjointSetUnion"))
+    # every checker looks at every row: a walk that starts at one node sees only what hangs below it
+    col.rule("R-ALLROWS", "each topology checker examines every row of the table it is given (forests, rows that do not hang below node 0, cycles): it loops over all rows / evaluates "
+             "whole columns, and does not answer from a traversal started at a single node (which also never ends on a cycle through that node)", floor=3)
+    for q in ("has_cyclic", "is_sorted", "is_bifurcate"):
+        dd = repo.get_def(f"{CHK}.{q}")
+        walks = [c for c in own_nodes(dd) if isinstance(c, ast.Call) and (dotted(c.func) or "").rsplit(".", 1)[-1] in ("traverse", "_traverse_dfs")]
+        in_root_loop = [c for c in walks if any(isinstance(p_, ast.For) for p_ in _ancestors(repo, c, dd.node))]
+        row_loop = any(isinstance(n, ast.For) and ("zip(*topology)" in norm_src(n.iter) or "range(" in norm_src(n.iter) or "enumerate(" in norm_src(n.iter)) for n in own_nodes(dd))
+        whole = any(isinstance(c, ast.Call) and (dotted(c.func) or "").rsplit(".", 1)[-1] in ("all", "any", "count_nonzero", "unique", "bincount") for c in own_nodes(dd))
+        what_a = f"{q}: every row of the table is examined"
+        if walks and not in_root_loop and not row_loop and not whole:
+            col.bad("R-ALLROWS", dd.qualname, dd.loc(walks[0]), what_a,
+                    f"`{norm_src(walks[0])[:70]}` walks the table from one start node (node 0 by default): rows that do not hang below it -- the other trees of a forest, everything when the "
+                    f"root is another node -- are never looked at and the answer is True whatever they contain; on a cycle through the start node the walk does not end",
+                    stmt="all-rows", definite=True)
+        elif row_loop or whole:
+            col.ok("R-ALLROWS", dd.qualname, dd.loc(), what_a, "loops over all rows / evaluates whole columns", stmt="all-rows")
+        else:
+            col.unresolved("R-ALLROWS", dd.qualname, dd.loc(), what_a, "neither a loop over the rows, a whole-column expression nor a single walk recognised", stmt="all-rows")
     # a shortcut that answers from the numbering must be strict: `parent <= child` admits the self-parented node
     for q in ("has_cyclic", "is_sorted", "is_bifurcate"):
         dd = repo.get_def(f"{CHK}.{q}")
@@ -578,12 +600,6 @@ def anchored(ctx, col):
     s1 = repo.get_def(f"{CHK}.is_single_root")
     col.text_group("R-CHECK", s1.qualname, s1, [("connected <=> exactly one component label", ["return len(np.unique(get_dsu(df, names=names))) == 1"], "single")],
                    fixed=("df", "names", "get_dsu"))
-    so = repo.get_def(f"{CHK}.is_sorted")
-    col.text_group("R-CHECK", so.qualname, so, [
-        ("unsorted <=> some node's id is below its parent's id", ["if parent is not None and idx < parent: flag = False"], "test"),
-        ("each node hands its id to its children", ["return idx"], "hand"),
-        ("top-down over the whole topology", ["traverse(topology=topology, enter=enter)"], "walk"),
-    ], fixed=("topology", "traverse"))
     g = repo.get_def("swcgeom.core.swc_utils.base.get_dsu")
     col.text_group("R-CHECK", g.qualname, g, [
         ("initial label: own id for roots, parent id otherwise", ["dsu = np.where(df[names.pid] == -1, df[names.id], df[names.pid])"], "init"),
